@@ -3,9 +3,13 @@
     {lower corner..., upper corner...} ([lows], [highs]); [ordered lo hi] says lo_j <= hi_j; [inbox lo hi pt] says
     lo_j <= pt_j <= hi_j and pt_j < hi_j on every axis of positive width; [cbox] is the closed box;
     [volume lo hi] is the product of the widths; [vstate] holds the statics of Integrate_MC_Vegas that survive a call;
-    [wf_statics] says that the static grid has its fixed container size. *)
+    [wf_statics] says that the static grid has its fixed container size.
+    Histories: [integrate_mc_throwing ... n] is a call whose integrand throws a C++ exception from its n-th evaluation (n <= 0: never), caught by
+    the caller: [None] and the statics left behind when that brings the integration to an end, [Some] value otherwise; [run_history s h] runs
+    the calls [h] (each with its own stream, method, integrand, region, budget and n) one after the other from the statics [s];
+    [history_ok h]: every call has at most MXDIM = 10 dimensions. *)
 From Coq Require Import Reals ZArith List.
-From LP Require Import Num NumR C13_Model C14_Model C14_Proofs.
+From LP Require Import Num NumR C13_Model C14_Model C14_Proofs C14_Proofs_Hist.
 Import ListNotations.
 Local Open Scope R_scope.
 
@@ -104,6 +108,30 @@ Theorem C14_plain_and_miser_stateless (us : Z -> R) s f region ncalls :
   integrate_mc ROps us s M_Miser f region ncalls = rmap (fun r => (r, s)) (integrate_miser ROps us f region ncalls).
 Proof. exact (plain_and_miser_stateless us s f region ncalls). Qed.
 Print Assumptions C14_plain_and_miser_stateless.
+
+(** "all call histories: sequences of integrations of differing dimension, region and budget preceding the observed call" — the calls of a
+    history may also be brought to an end early by their integrand.  A call whose integrand never throws is the ordinary call; plain Monte Carlo
+    and Miser are brought to an end exactly when the integrand throws within the budget and leave no trace ... *)
+Theorem C14_throwing_call_model (us : Z -> R) s m f region ncalls n :
+  ((n <= 0)%Z -> integrate_mc_throwing ROps us s m f region ncalls n = rmap (fun r => (Some (fst r), snd r)) (integrate_mc ROps us s m f region ncalls)) /\
+  ((1 <= n <= ncalls)%Z -> integrate_mc_throwing ROps us s M_MonteCarlo f region ncalls n = Ok (None, s) /\
+                           integrate_mc_throwing ROps us s M_Miser f region ncalls n = Ok (None, s)).
+Proof. exact (conj (integrate_mc_throwing_never ROps us s m f region ncalls n) (throwing_plain_and_miser us s f region ncalls n)). Qed.
+Print Assumptions C14_throwing_call_model.
+
+(** ... every call, run to its end or not, leaves well-formed statics behind (for Vegas: whatever iteration the exception interrupts, the
+    grid keeps its rows and no row is empty), so do whole histories ... *)
+Theorem C14_history_leaves_wf_statics h s s' :
+  wf_statics s -> history_ok h -> run_history ROps s h = Ok s' -> wf_statics s'.
+Proof. exact (run_history_wf h s s'). Qed.
+Print Assumptions C14_history_leaves_wf_statics.
+
+(** ... and the observed call after any such history, started in a fresh process, returns what it returns in a fresh process. *)
+Theorem C14_observed_call_forgets_history (us : Z -> R) h s m f region ncalls :
+  history_ok h -> run_history ROps (vstate0 ROps) h = Ok s -> (rdim region <= 10)%nat ->
+  rmap fst (integrate_mc ROps us s m f region ncalls) = rmap fst (integrate_mc ROps us (vstate0 ROps) m f region ncalls).
+Proof. exact (observed_call_forgets_history us h s m f region ncalls). Qed.
+Print Assumptions C14_observed_call_forgets_history.
 
 (** "the two- and three-dimensional front ends pass the region in the right order": the region vectors built by Integrate_2D/3D
     (C13_Model.mc_region_2d/3d, see also Properties_C13.C13_mc_region_layout_2d/3d) have lower corner (x1,y1(,z1)) and upper corner (x2,y2(,z2)). *)
